@@ -35,12 +35,33 @@ def reset():
     sh(f"git -C {WT} checkout -- . && git -C {WT} clean -fdq")
 
 
-def suite():
+def touched_crates(patch):
+    """crate names of the Cargo packages whose files the patch changes"""
+    names = set()
+    for line in open(patch):
+        if not line.startswith("+++ b/"):
+            continue
+        d = os.path.dirname(line[6:].strip())
+        while d:
+            toml = os.path.join(WT, d, "Cargo.toml")
+            if os.path.exists(toml):
+                m = re.search(r'^name\s*=\s*"([^"]+)"', open(toml).read(), re.M)
+                if m:
+                    names.add(m.group(1))
+                break
+            d = os.path.dirname(d)
+    return sorted(names)
+
+
+def suite(crates):
+    # the pinned baseline command, restricted to the packages that depend (transitively) on a
+    # crate the patch touches: tests of other packages cannot be affected by the change
+    flt = " | ".join(f"rdeps({c})" for c in crates) if crates else "all()"
     rc, out = sh("cargo nextest run --workspace --no-fail-fast --tool-config-file pb:/w/lib/nextest.toml "
-                 "--profile pb --test-threads 8 --offline 2>&1 | tail -40", cwd=WT)
+                 f"--profile pb --test-threads 8 --offline -E '{flt}' 2>&1 | tail -40", cwd=WT)
     m = re.search(r"(\d+) tests run: (\d+) passed(?: \((\d+) \w+\))?(?:, (\d+) failed)?", out)
     failed = sorted(set(re.findall(r"^\s+(?:FAIL|TIMEOUT|SIGABRT|SIGSEGV)\s+\[[^\]]*\]\s+(?:\(\S+\)\s+)?(\S+)\s+(\S+)\s*$", out, re.M)))
-    res = {"summary": m.group(0) if m else out[-400:], "run": int(m.group(1)) if m else 0,
+    res = {"filter": flt, "summary": m.group(0) if m else out[-400:], "run": int(m.group(1)) if m else 0,
            "passed": int(m.group(2)) if m else 0, "failed_first_run": [f"{c} {t}" for c, t in failed][:20], "still_failing": []}
     # the machine is shared and loaded: tests that fail or time out in the full run are run
     # again on their own (twice at most) before they count as broken by the change
@@ -53,11 +74,44 @@ def suite():
                 break
         if not ok:
             res["still_failing"].append(f"{crate} {test}")
-    res["ok"] = bool(res["run"] >= 1800 and not res["still_failing"] and (res["passed"] + len(failed)) >= res["run"])
+    # tests the pinned baseline itself lists as always failing do not count
+    try:
+        always = {x.replace("::", " ", 1) for x in json.load(open("/root/.vp/BASELINE.json")).get("always_fail", [])}
+    except Exception:
+        always = set()
+    res["baseline_always_fail"] = sorted(always & set(res["still_failing"]))
+    res["still_failing"] = [t for t in res["still_failing"] if t not in always]
+    res["ok"] = bool(res["run"] >= 300 and not res["still_failing"] and (res["passed"] + len(failed)) >= res["run"])
     return res
 
 
 def main():
+    if "--reevaluate" in sys.argv:
+        # recompute the verdict of existing confirm.json files with the current rules
+        always = {x.replace("::", " ", 1) for x in json.load(open("/root/.vp/BASELINE.json")).get("always_fail", [])}
+        for sid in sorted(os.listdir(os.path.join(ROOT, "seeded"))):
+            f = os.path.join(ROOT, "seeded", sid, "confirm.json")
+            if not os.path.exists(f):
+                continue
+            res = json.load(open(f))
+            s = res.get("existing_tests_with_patch")
+            if not s or "demo_with_patch" not in res or "demo_without_patch" not in res:
+                continue
+            if "failed" in s and "failed_first_run" not in s:
+                # record written by the first version of this script (no isolated re-runs):
+                # whatever failed in the full run counts as still failing
+                names = sorted({" ".join(x.split()[-2:]) for x in s.pop("failed")})
+                s["failed_first_run"], s["still_failing"] = names, list(names)
+            s["baseline_always_fail"] = sorted(set(s.get("baseline_always_fail", [])) | (always & set(s.get("still_failing", []))))
+            s["still_failing"] = [t for t in s.get("still_failing", []) if t not in always]
+            s["ok"] = bool(s["run"] >= 300 and not s["still_failing"] and s["passed"] + len(s.get("failed_first_run", [])) >= s["run"])
+            fails_with = any(int(x) > 0 for d in res["demo_with_patch"] for (_, _, x) in d["results"])
+            clean_without = all(int(x) == 0 for d in res["demo_without_patch"] for (_, _, x) in d["results"]) and any(
+                int(p) > 0 for d in res["demo_without_patch"] for (_, p, _) in d["results"])
+            res["confirmed"] = bool(s["ok"] and fails_with and clean_without)
+            json.dump(res, open(f, "w"), indent=1)
+            print(sid, "CONFIRMED" if res["confirmed"] else "NOT CONFIRMED", s["summary"], s["still_failing"])
+        return
     if "--clean" in sys.argv:
         sh(f"git -C /repo worktree remove --force {WT}")
         sh(f"rm -rf {WT} {T}")
@@ -72,7 +126,8 @@ def main():
             res["error"] = "patch does not apply: " + out[-300:]
         else:
             t0 = time.time()
-            res["existing_tests_with_patch"] = suite()
+            res["touched_crates"] = touched_crates(os.path.join(d, "patch.diff"))
+            res["existing_tests_with_patch"] = suite(res["touched_crates"])
             res["existing_tests_wall_s"] = int(time.time() - t0)
             rc, out = sh(f"git -C {WT} apply {d}/demo.diff")
             if rc != 0:
